@@ -101,6 +101,11 @@
         pub fn as_bytes(&self) -> (r: &[u8])
             ensures r@ == self.view()
         { unimplemented!() }
+        /// HeaderValue::from_str: Ok iff every byte is HTAB or 0x20..=0x7e / 0x80..=0xff
+        #[verifier::external_body]
+        pub fn from_str(src: &str) -> (r: Result<HeaderValue, InvalidHeaderValue>)
+            ensures r is Ok <==> valid_value(crate::str_bytes(src)), r is Ok ==> r->Ok_0.view() == crate::str_bytes(src)
+        { unimplemented!() }
         /// visible-ASCII test of HeaderValue::to_str
         pub open spec fn is_text(&self) -> bool {
             forall|i: int| 0 <= i < self.view().len() ==> (32 <= #[trigger] self.view()[i] < 127 || self.view()[i] == 9)
@@ -111,6 +116,7 @@
         { unimplemented!() }
     }
     pub struct ToStrError(pub ());
+    pub struct InvalidHeaderValue(pub ());
     impl Clone for HeaderValue {
         #[verifier::external_body]
         fn clone(&self) -> (r: Self) ensures r.view() == self.view() { unimplemented!() }
@@ -312,6 +318,30 @@
     #[verifier::external_body]
     #[derive(Debug)]
     pub struct Error { _p: () }
+    pub struct InvalidHeaderName(pub ());
+    // conversions that `AmendedRequest::set_header` / `unset_header` are generic over (signatures only)
+    impl From<core::convert::Infallible> for Error {
+        #[verifier::external_body]
+        fn from(e: core::convert::Infallible) -> Error { unimplemented!() }
+    }
+    impl From<InvalidHeaderName> for Error {
+        #[verifier::external_body]
+        fn from(e: InvalidHeaderName) -> Error { unimplemented!() }
+    }
+    impl From<InvalidHeaderValue> for Error {
+        #[verifier::external_body]
+        fn from(e: InvalidHeaderValue) -> Error { unimplemented!() }
+    }
+    impl<'a> TryFrom<&'a str> for HeaderName {
+        type Error = InvalidHeaderName;
+        #[verifier::external_body]
+        fn try_from(s: &'a str) -> Result<HeaderName, InvalidHeaderName> { unimplemented!() }
+    }
+    impl<'a> TryFrom<&'a str> for HeaderValue {
+        type Error = InvalidHeaderValue;
+        #[verifier::external_body]
+        fn try_from(s: &'a str) -> Result<HeaderValue, InvalidHeaderValue> { unimplemented!() }
+    }
 
     pub mod response {
         use vstd::prelude::*;
